@@ -5,7 +5,9 @@
 //! after everything it depends on ended (forward) / everything depending on it (reverse); C03 at most once,
 //! exactly once in a clean run; C04 the call returns (watchdog) and does not panic; C07 one error per failed
 //! function, nothing ordered after a failed one starts; C09 outcome lists.
-//! usage: c_run [C01|C02|C03|C04|C07|C09|all]
+//! With VERIF_EXECUTOR=tokio every call is driven by a tokio current-thread runtime instead of futures' block_on (tokio's
+//! per-task cooperative budget makes its primitives return Pending spuriously once ~128 operations happened in one poll).
+//! usage: c_run [C01|C02|C03|C04|C05|C07|C09|C10|all]
 use fn_graph::daggy::petgraph::algo::has_path_connecting;
 use fn_graph::{FnGraph, FnGraphBuilder, FnId, StreamOpts, StreamOutcomeState};
 use fn_graph_replay::*;
@@ -26,9 +28,13 @@ struct YieldN(u32);
 impl Future for YieldN {
     type Output = ();
     fn poll(mut self: Pin<&mut Self>, cx: &mut Context<'_>) -> Poll<()> {
-        if self.0 == 0 { Poll::Ready(()) } else { self.0 -= 1; cx.waker().wake_by_ref(); Poll::Pending }
+        // READY_ONLY (set per case in the tokio-runtime mode): user futures complete at their first poll, so many functions
+        // finish inside one poll of the streaming call (tokio's per-task operation budget runs out only then)
+        if self.0 == 0 || READY_ONLY.load(std::sync::atomic::Ordering::Relaxed) { Poll::Ready(()) } else { self.0 -= 1; cx.waker().wake_by_ref(); Poll::Pending }
     }
 }
+
+static READY_ONLY: std::sync::atomic::AtomicBool = std::sync::atomic::AtomicBool::new(false);
 
 #[derive(Clone, Debug)]
 enum Ev { Start(usize), End(usize) }
@@ -100,11 +106,14 @@ static HANGS: std::sync::atomic::AtomicUsize = std::sync::atomic::AtomicUsize::n
 fn guarded(which: &str, label: String, f: impl FnOnce() -> Result<(), String> + Send + 'static) -> Result<Result<(), String>, String> {
     let (tx, rx) = std::sync::mpsc::channel();
     let h = std::thread::spawn(move || { let r = std::panic::catch_unwind(std::panic::AssertUnwindSafe(f)); let _ = tx.send(r.is_ok()); r });
+    // a panic / hang is a C04 matter; a hang of a for_each_concurrent* call with a limit >= 1 is also what C10's last sentence excludes
+    let c10_hang = which == "C10" && (label.contains("limit=Some(1)") || label.contains("limit=Some(2)"));
     let c04 = which == "C04" || which == "all";
     match rx.recv_timeout(std::time::Duration::from_secs(20)) {
         Ok(true) => Ok(h.join().unwrap().ok().unwrap()),
         // a panic / hang is a C04 matter: it is only reported when C04 is being searched
         Ok(false) => if c04 { Err(format!("C04: panic during {label}")) } else { Ok(Ok(())) },
+        Err(_) if c10_hang => Err(format!("C10: {label} did not run to completion within 20 s although the limit is >= 1")),
         Err(_) => if c04 { Err(format!("C04: {label} did not return within 20 s (future left pending with no wake-up)")) } else {
             // hangs are a C04 matter; a search for another property gives up after a few of them instead of waiting 20 s per call
             if HANGS.fetch_add(1, std::sync::atomic::Ordering::SeqCst) >= 2 { println!("OK: {which} search abandoned after repeated hangs (hangs are reported by the C04 search)"); std::process::exit(0); }
@@ -126,7 +135,7 @@ fn run_case(which: &'static str, c: Case, seed: u64) -> Result<(), String> {
                 let trace = Rc::new(RefCell::new(Vec::<Ev>::new()));
                 let rng = Rc::new(RefCell::new(Lcg(seed ^ 0x9e37)));
                 let opts = if reverse { StreamOpts::new().rev() } else { StreamOpts::new() };
-                let outcome = std::panic::catch_unwind(std::panic::AssertUnwindSafe(|| futures::executor::block_on(g.for_each_concurrent_with(limit, opts, |f: &Acc| {
+                let outcome = std::panic::catch_unwind(std::panic::AssertUnwindSafe(|| block_on(g.for_each_concurrent_with(limit, opts, |f: &Acc| {
                     let (t, r, id) = (trace.clone(), rng.clone(), f.id);
                     async move {
                         t.borrow_mut().push(Ev::Start(id));
@@ -167,7 +176,7 @@ fn run_case(which: &'static str, c: Case, seed: u64) -> Result<(), String> {
         if !stream_only { guarded(which, label, move || {
             let (g, ids) = build(&cc);
             let opts = if reverse { StreamOpts::new().rev() } else { StreamOpts::new() };
-            let outcome = futures::executor::block_on(g.fold_async_with(Vec::<Ev>::new(), opts, |mut t, f| Box::pin(async move {
+            let outcome = block_on(g.fold_async_with(Vec::<Ev>::new(), opts, |mut t, f| Box::pin(async move {
                 t.push(Ev::Start(f.id)); YieldN(1).await; t.push(Ev::End(f.id)); t
             })));
             let tr = outcome.value.clone();
@@ -224,7 +233,7 @@ fn run_case(which: &'static str, c: Case, seed: u64) -> Result<(), String> {
             let failing: Vec<usize> = (0..cc.n).filter(|_| rng.below(4) == 0).collect();
             let trace = Rc::new(RefCell::new(Vec::<Ev>::new()));
             let fl = failing.clone();
-            let res = futures::executor::block_on(g.try_for_each_concurrent(None, |f: &Acc| {
+            let res = block_on(g.try_for_each_concurrent(None, |f: &Acc| {
                 let (t, id, fail) = (trace.clone(), f.id, fl.contains(&f.id));
                 async move { t.borrow_mut().push(Ev::Start(id)); YieldN(1).await; t.borrow_mut().push(Ev::End(id)); if fail { Err(id) } else { Ok(()) } }
             }));
@@ -256,13 +265,13 @@ fn run_case(which: &'static str, c: Case, seed: u64) -> Result<(), String> {
                 let fl = failing.clone();
                 let (outcome, errs, is_break): (fn_graph::StreamOutcome<()>, Vec<usize>, bool) = if variant == 0 {
                     let st = started.clone();
-                    match futures::executor::block_on(g.try_for_each_concurrent_mut(None, move |f: &mut Acc| {
+                    match block_on(g.try_for_each_concurrent_mut(None, move |f: &mut Acc| {
                         let (st, id, fail) = (st.clone(), f.id, fl.contains(&f.id));
                         async move { st.borrow_mut().push(id); YieldN(1).await; if fail { Err(id) } else { Ok(()) } }
                     })) { Ok(o) => (o, vec![], false), Err((o, e)) => (o, e, true) }
                 } else {
                     let st = started.clone();
-                    match futures::executor::block_on(g.try_for_each_concurrent_control_mut(None, move |f: &mut Acc| {
+                    match block_on(g.try_for_each_concurrent_control_mut(None, move |f: &mut Acc| {
                         let (st, id, fail) = (st.clone(), f.id, fl.contains(&f.id));
                         async move { st.borrow_mut().push(id); YieldN(1).await; if fail { std::ops::ControlFlow::Break(id) } else { std::ops::ControlFlow::Continue(()) } }
                     })) { std::ops::ControlFlow::Continue(o) => (o, vec![], false), std::ops::ControlFlow::Break((o, e)) => (o, e, true) }
@@ -301,6 +310,10 @@ fn main() {
         let n = 72; let mut edges = vec![]; for i in 1..71 { edges.push((0, i)); edges.push((i, 71)); }
         cases.push(Case { n, accs: (0..n).map(|i| Acc { id: i, reads: vec![], writes: vec![] }).collect(), edges, desc: "root -> 70 children -> sink".into() });
     }
+    {
+        let n = 202; let mut edges = vec![]; for i in 1..201 { edges.push((0, i)); edges.push((i, 201)); }
+        cases.push(Case { n, accs: (0..n).map(|i| Acc { id: i, reads: vec![], writes: vec![] }).collect(), edges, desc: "root -> 200 children -> sink".into() });
+    }
     // large fan-in / fan-out
     cases.push(Case { n: 301, accs: (0..301).map(|i| Acc { id: i, reads: vec![], writes: vec![] }).collect(), edges: (0..300).map(|i| (i, 300)).collect(), desc: "fan-in: 300 functions -> 1 sink".into() });
     cases.push(Case { n: 301, accs: (0..301).map(|i| Acc { id: i, reads: vec![], writes: vec![] }).collect(), edges: (1..301).map(|i| (0, i)).collect(), desc: "fan-out: 1 root -> 300 functions".into() });
@@ -316,7 +329,9 @@ fn main() {
         let desc = format!("random #{round}: n={n} accesses={:?} logic edges={edges:?}", accs.iter().map(|a| (a.reads.clone(), a.writes.clone())).collect::<Vec<_>>());
         cases.push(Case { n, accs, edges, desc });
     }
+    let tokio_mode = std::env::var("VERIF_EXECUTOR").as_deref() == Ok("tokio");
     for (k, c) in cases.into_iter().enumerate() {
+        READY_ONLY.store(tokio_mode && (c.n > 50 || k % 2 == 0), std::sync::atomic::Ordering::Relaxed);
         if let Err(e) = run_case(which, c, seed.wrapping_add(k as u64)) {
             println!("VIOLATION {e}");
             std::process::exit(1);
